@@ -924,3 +924,87 @@ Proof.
     apply Forall_app in Hr. destruct Hr as [Hr1 Hr2]. apply Forall_app. split; [exact Hr1|].
     constructor; [| constructor]. rewrite (eos_of_bos _ _ _ Heos). inversion Hr2; assumption.
 Qed.
+
+(* ---------- multi-track writer ---------- *)
+
+Inductive all3 {A B C : Type} (P : A -> B -> C -> Prop) : list A -> list B -> list C -> Prop :=
+| all3_nil : all3 P [] [] []
+| all3_cons : forall a b c la lb lc, P a b c -> all3 P la lb lc -> all3 P (a :: la) (b :: lb) (c :: lc).
+
+Lemma all3_impl : forall {A B C} (P Q : A -> B -> C -> Prop) la lb lc,
+  (forall a b c, P a b c -> Q a b c) -> all3 P la lb lc -> all3 Q la lb lc.
+Proof. intros A B C P Q la lb lc H Ha. induction Ha; constructor; auto. Qed.
+
+(* track, its configuration, the packets it has been asked to write *)
+Definition T3 (rw : bool) (log : list wpage) (tr cfg : track) (pkts : list pkt3) : Prop :=
+  same_static tr cfg /\ R rw log tr pkts.
+
+Definition others_ok (rw : bool) (log : list wpage) (others : list (track * list pkt3)) : Prop :=
+  Forall (fun o => R rw log (fst o) (snd o)) others.
+
+Fixpoint add_each (pktss : list (list pkt3)) (cfgs : list track) (mk : track -> pkt3) : list (list pkt3) :=
+  match pktss, cfgs with
+  | pk :: pt, c :: ct => (pk ++ [mk c]) :: add_each pt ct mk
+  | _, _ => []
+  end.
+
+Definition page_step (rw : bool) (mk : track -> pkt3) (out : list N) (tr : track) :=
+  write_page writer_table rw out tr (snd (fst (mk tr))) (fst (fst (mk tr))) (snd (mk tr)).
+
+Lemma all3_impl_in : forall {A B C} (P Q : A -> B -> C -> Prop) la lb lc,
+  (forall a b c, In a la -> P a b c -> Q a b c) -> all3 P la lb lc -> all3 Q la lb lc.
+Proof.
+  intros A B C P Q la lb lc H Ha. induction Ha as [| a b c la lb lc Hp Ha IH]; constructor.
+  - apply H; [left; reflexivity | exact Hp].
+  - apply IH. intros a' b' c' Hin. apply H. right. exact Hin.
+Qed.
+
+Lemma each_track_pages : forall rw (mk : track -> pkt3),
+  (forall a b, same_static a b -> mk a = mk b) ->
+  forall trs cfgs pktss log others,
+    all3 (T3 rw log) trs cfgs pktss -> others_ok rw log others ->
+    NoDup (map tr_serial trs) ->
+    (forall t o, In t trs -> In o others -> tr_serial (fst o) <> tr_serial t) ->
+    exists log' trs',
+      each_track (page_step rw mk) (bytes_of log) trs = Ok (bytes_of log', trs') /\
+      all3 (T3 rw log') trs' cfgs (add_each pktss cfgs mk) /\ others_ok rw log' others /\
+      map tr_prev_granule trs' = map tr_prev_granule trs /\
+      (forall s, ~ In s (map tr_serial trs) -> mine s log' = mine s log).
+Proof.
+  intros rw mk Hmk trs. induction trs as [|tr trs IH]; intros cfgs pktss log others Hall Hoth Hnd Hdis.
+  - inversion Hall; subst. exists log, []. cbn [each_track add_each map].
+    split; [reflexivity|]. split; [constructor|]. split; [exact Hoth|]. split; reflexivity.
+  - inversion Hall as [| ? cfg pkts ? cfgs' pktss' (Hst & HR) Hrest]; subst.
+    cbn [each_track]. unfold page_step at 1.
+    destruct (write_page_own rw log tr pkts (snd (fst (mk tr))) (fst (fst (mk tr))) (snd (mk tr)) HR)
+      as (pgs & tr' & Hw & _ & _ & Hs & Hg & Hr & Hm & Hp & Ht & HR').
+    rewrite Hw.
+    set (log1 := log ++ tag (tr_serial tr) pgs) in *.
+    cbn [map] in Hnd. inversion Hnd as [| ? ? Hnotin Hnd']; subst.
+    assert (Hrest1 : all3 (T3 rw log1) trs cfgs' pktss').
+    { eapply all3_impl_in; [| exact Hrest]. intros a b c Hin (Hs1 & HR1). split; [exact Hs1|].
+      apply R_other; [exact HR1|]. intros E. apply Hnotin. rewrite E. apply in_map. exact Hin. }
+    assert (Hst' : same_static tr' cfg).
+    { eapply same_static_trans; [| exact Hst]. repeat split; assumption. }
+    assert (Hoth1 : others_ok rw log1 ((tr', pkts ++ [mk cfg]) :: others)).
+    { constructor.
+      - cbn [fst snd]. rewrite <- (Hmk tr cfg Hst).
+        replace (mk tr) with (fst (fst (mk tr)), snd (fst (mk tr)), snd (mk tr)) at 1
+          by (destruct (mk tr) as [[? ?] ?]; reflexivity).
+        exact HR'.
+      - apply Forall_forall. intros o Ho. unfold others_ok in Hoth. rewrite Forall_forall in Hoth.
+        apply R_other; [exact (Hoth o Ho)|]. intros E.
+        apply (Hdis tr o (or_introl eq_refl) Ho). symmetry. exact E. }
+    destruct (IH cfgs' pktss' log1 _ Hrest1 Hoth1 Hnd') as (log' & trs' & He & Hall' & Hoth' & Hgr & Hmine).
+    { intros t o Ht' [<- | Ho]; cbn [fst].
+      - rewrite Hs. intros E. apply Hnotin. rewrite E. apply in_map. exact Ht'.
+      - apply Hdis; [right; exact Ht' | exact Ho]. }
+    rewrite He. exists log', (tr' :: trs').
+    inversion Hoth' as [| ? ? Hhead Htail]; subst. cbn [fst snd] in Hhead.
+    split; [reflexivity|]. split; [| split; [exact Htail | split]].
+    + cbn [add_each]. constructor; [split; [exact Hst' | exact Hhead] | exact Hall'].
+    + cbn [map]. rewrite Hg, Hgr. reflexivity.
+    + intros s Hns. cbn [map] in Hns. rewrite Hmine by (intros Hin; apply Hns; right; exact Hin).
+      unfold log1. rewrite mine_app, mine_tag_other, app_nil_r; [reflexivity|].
+      intros E. apply Hns. left. exact E.
+Qed.
